@@ -136,8 +136,40 @@ pub fn init_process() {
 pub fn guard<R>(f: impl FnOnce() -> R) -> Result<R, String> {
     std::panic::catch_unwind(std::panic::AssertUnwindSafe(f)).map_err(|_| {
         let p = take_last_panic();
-        p.replace("/repo/rsass/", "")
+        // "/any/checkout/rsass/src/x.rs:1:2: msg" -> "src/x.rs:1:2: msg"
+        match p.find("/rsass/src/") {
+            Some(i) if !p[..i].contains(' ') => p[i + "/rsass/".len()..].to_string(),
+            _ => p,
+        }
     })
+}
+
+/// Call-site signature of a panic text "file:line:col: message" that survives
+/// unrelated edits of the file: file + message with numbers masked and white
+/// space folded (no line number).
+pub fn panic_site(p: &str) -> String {
+    let (loc, msg) = p.split_once(": ").unwrap_or((p, ""));
+    let file = loc.split(':').next().unwrap_or(loc);
+    let mut m = String::new();
+    let mut last_digit = false;
+    for ch in msg.chars() {
+        if ch.is_ascii_digit() {
+            if !last_digit {
+                m.push('N');
+            }
+            last_digit = true;
+        } else if ch.is_whitespace() || ch.is_control() {
+            last_digit = false;
+            if !m.ends_with(' ') {
+                m.push(' ');
+            }
+        } else {
+            last_digit = false;
+            m.push(ch);
+        }
+    }
+    let m: String = m.trim().chars().take(90).collect();
+    format!("{file}:{m}")
 }
 
 fn finish(r: Result<Result<Vec<u8>, rsass::Error>, String>) -> Out {
